@@ -34,7 +34,7 @@ pub fn all() -> Vec<Prop> {
             id: "C12",
             engine_name: "E2-lookup",
             engine: crate::e2_lookup::run,
-            quick_runs: 400_000,
+            quick_runs: 1_000_000,
             thorough_runs: 12_000_000,
             rule: crate::e2_lookup::RULE,
             real: REAL_SYMS,
@@ -63,7 +63,7 @@ pub fn all() -> Vec<Prop> {
             id: "C10",
             engine_name: "E1-symstream",
             engine: crate::e1_symstream::run_c10,
-            quick_runs: 120_000,
+            quick_runs: 100_000,
             thorough_runs: 3_000_000,
             rule: crate::e1_symstream::RULE_C10,
             real: REAL_SYMS,
